@@ -33,6 +33,9 @@ CLAIMED = {
     "C07": ("runtime monitoring: boundary recorder on state_estimator(_vec), predictive_observation_dist/_vec, observation_matrix, BeliefMDP.* and next_agentstate over ALL (belief, action, observation) triples of each generated POMDP incl. impossible observations; oracle = independent dictionary Bayes filter",
             "Held-on-K-executions: every filter update / predictive distribution / belief-MDP transition produced by the real code is compared with an independent Bayes computation. Exploration: all-inputs property.",
             "trusts mon/ref/bayes.py (40 lines) and float64 at 1e-12", "§4 C07"),
+    "C10": ("runtime monitoring: TDLearningEventListener probe reads (s,a,r,ns,na) and the live Q-table(s) from the learner's locals at every time step, validates the step against the model and compares the whole live table with a shadow table advanced by the published update rule (online reference-model monitor); final table, bounds and greedy policy checked at the boundary",
+            "Held-on-K-executions over sampled histories (seeds) of all four learners. Exploration: the property quantifies over all experienced histories.",
+            "shadow table implements the rules as published in the class docstrings; float64 at 1e-12", "§4 C10"),
 }
 
 PENDING_REASON = "check not built yet in this round (design in DESIGN.md §4); not claimed until its monitor exists and is silent on the unchanged tree"
